@@ -962,6 +962,10 @@ pub fn run(ctx: &Ctx, prop: &'static str) -> Report {
     let rt = runtime();
     if let Some(path) = &ctx.replay {
         let v: Value = serde_json::from_slice(&std::fs::read(path).expect("replay")).expect("json");
+        if v["replay"]["family"] == "node-open-storm" {
+            crate::nodex::c08_node_level(ctx, &mut rep);
+            return rep;
+        }
         if v["replay"]["family"] == "node-keep-alive" {
             crate::nodex::c09_node_level(ctx, &mut rep);
             return rep;
@@ -1057,6 +1061,8 @@ pub fn run(ctx: &Ctx, prop: &'static str) -> Report {
         rep.floor("answered_requests_checked", 100);
         rep.floor("mgr_closed_events", 100);
         rep.floor("directed_close_order_protocols_first", 1);
+        // node level: answers to open requests on the real connection task with a stalled remote
+        crate::nodex::c08_node_level(ctx, &mut rep);
     } else {
         rep.floor("connections_released_by_keep_alive", 300);
         rep.floor("idle_phase_checks", 300);
